@@ -83,6 +83,9 @@ func (o *OracleC23) killed(w *ledger.World, bc *ledger.BlockCtx, v *txnView) {
 	_ = json.Unmarshal(t.SmartContractData.InputData, &req)
 	kind := kindOfKillFn(v.Fn)
 	p := o.M.Find(kind, req.ID)
+	if p != nil && p.GoneOK {
+		p = nil // its records were deleted when it was killed: no such provider any more
+	}
 	cf := readConf(w, bc)
 	owner := cf.Miner.OwnerId
 	if t.ToClientID == ledger.AddrStorage {
@@ -101,6 +104,18 @@ func (o *OracleC23) killed(w *ledger.World, bc *ledger.BlockCtx, v *txnView) {
 			wallet = oldSP.Settings.DelegateWallet
 		}
 	}
+	if p == nil && v.Class == fnShutdown {
+		// no provider of the function's kind has this id; when a provider of another kind has it, the
+		// contract finds that one's stake pool (it does not check the kind) and takes its delegate wallet
+		for _, q := range o.M.ByID(req.ID) {
+			if q.GoneOK {
+				continue
+			}
+			if sp := prePool(o.M, bc, v, q); sp != nil && sp.Settings.DelegateWallet == t.ClientID {
+				wallet = t.ClientID
+			}
+		}
+	}
 	authorised := t.ClientID == owner || (v.Class == fnShutdown && wallet != "" && t.ClientID == wallet)
 	if !authorised {
 		want := map[string]*big.Int{}
@@ -110,9 +125,13 @@ func (o *OracleC23) killed(w *ledger.World, bc *ledger.BlockCtx, v *txnView) {
 		if !ok {
 			o.viol(w, "unauthorised", v.Fn+"/unauthorised-caller-moved-tokens", msg)
 		}
+		state := "unauthorised-caller-changed-state/"
+		if p != nil && p.Dead {
+			state = "unauthorised-caller-changed-state-of-already-dead-provider/"
+		}
 		for _, k := range ledger.SortedKeys(v.Recs) {
-			o.viol(w, "unauthorised", v.Fn+"/unauthorised-caller-changed-state/"+keyClass(k),
-				fmt.Sprintf("%s sent by %s (not the owner%s) changed record %q", v.Fn, t.ClientID, map[bool]string{true: ", not the delegate wallet"}[v.Class == fnShutdown], k))
+			o.viol(w, "unauthorised", v.Fn+"/"+state+keyClass(k),
+				fmt.Sprintf("%s sent by %s (not the owner%s) changed record %q%s", v.Fn, t.ClientID, map[bool]string{true: ", not the delegate wallet"}[v.Class == fnShutdown], k, offersNote(v.Recs[k])))
 		}
 		if v.O.Class == ledger.Success {
 			w.Tr.Probe("unauthorised_" + v.Fn + "_returned_success")
@@ -122,13 +141,19 @@ func (o *OracleC23) killed(w *ledger.World, bc *ledger.BlockCtx, v *txnView) {
 	}
 	if p == nil {
 		// no such provider of the kind this function is for: nothing of anybody may change
-		for _, k := range ledger.SortedKeys(v.Recs) {
-			what := "unregistered-target"
-			if q := o.M.ByID(req.ID); len(q) > 0 {
-				what = "target-of-kind-" + q[0].Kind.String()
+		what := "unregistered-target"
+		for _, q := range o.M.ByID(req.ID) {
+			if !q.GoneOK {
+				what = "target-of-kind-" + q.Kind.String()
 			}
+		}
+		detail := ""
+		for _, k := range ledger.SortedKeys(v.Recs) {
 			ch := v.Recs[k]
-			o.viol(w, "target", v.Fn+"/"+what+"/state-changed/"+keyClass(k), fmt.Sprintf("%s for id %s, which is no %s, changed record %q (top-level fields before %v, after %v)", v.Fn, req.ID, kind, k, topKeys(ch.Old), topKeys(ch.New)))
+			detail += fmt.Sprintf(" %q (top-level fields before %v, after %v)", k, topKeys(ch.Old), topKeys(ch.New))
+		}
+		if len(v.Recs) > 0 {
+			o.viol(w, "target", v.Fn+"/"+what+"/state-changed", fmt.Sprintf("%s for id %s, which is no %s, changed records:%s", v.Fn, req.ID, kind, detail))
 		}
 		return
 	}
@@ -233,6 +258,16 @@ func (o *OracleC23) Checkpoint(r *ledger.Runner, st sim.Step) {
 	})
 }
 
+func offersNote(ch ledger.LeafChange) string {
+	if ch.Old == nil || ch.New == nil {
+		return ""
+	}
+	if a, b := totalOffers(ch.Old), totalOffers(ch.New); a != b {
+		return fmt.Sprintf(" (total_offers %d -> %d)", a, b)
+	}
+	return ""
+}
+
 // slashOK: new == old × (1 − f) within one unit of rounding.
 func slashOK(old, nw uint64, f float64) bool {
 	x := new(big.Float).SetPrec(200).SetUint64(old)
@@ -260,14 +295,17 @@ func markDead(m *Model, w *ledger.World, bc *ledger.BlockCtx, v *txnView) {
 			}
 		}
 	}
-	if p == nil || p.Dead {
-		return
-	}
-	// dead from now on if the transaction was allowed to do it: the provider record says so or is gone
-	raw := rawAt(bc.State, p.ProvKey())
-	k, s, ok := provFlags(raw)
-	if raw == nil || (ok && (k || s)) {
-		p.Dead, p.DeadBy = true, v.Fn
+	// dead from now on: the provider record says so or is gone. A function of another provider kind
+	// that reached this id (the contracts do not check the kind) counts as well.
+	for _, q := range m.ByID(req.ID) {
+		if q.Dead || (p != nil && q != p) && v.Recs[q.ProvKey()].New == nil && v.Recs[q.ProvKey()].Old == nil {
+			continue
+		}
+		raw := rawAt(bc.State, q.ProvKey())
+		k, s, ok := provFlags(raw)
+		if (raw == nil && q == p) || (ok && (k || s)) {
+			q.Dead, q.DeadBy = true, v.Fn
+		}
 	}
 }
 
